@@ -47,6 +47,36 @@ example : safe [.asarray V.f V.field, .copy V.f V.f, .setItem V.f, .ret V.f] = t
 -- and is not satisfied by the same program without the copy
 example : safe [.asarray V.f V.field, .setItem V.f, .ret V.f] = false := by decide
 
+/-! ### structured programs (what the static scan extracts from the python source) -/
+
+/-- **Soundness with branches and loops.**  If the ownership analysis accepts a structured program starting
+    from no owned variable, then EVERY execution (any choice of branches, any number of loop iterations)
+    from ANY heap leaves every pre-existing buffer unwritten and unchanged. -/
+theorem structured_safe_sound (b : List Stmt) (hb : safeB [] b = true) (σ σ' : St) (he : ExecL b σ σ') :
+    (∀ i, i < σ.next → σ'.ver i = σ.ver i) ∧ (∀ i, i ∈ σ'.written → i ∈ σ.written ∨ σ.next ≤ i) :=
+  have h := safeB_sound hb (owned_nil σ) he
+  ⟨h.ver, h.written⟩
+
+/-- the conditional form used for internal helpers that write into a parameter (`Krige._summate`): accepted
+    when the listed parameters are owned ⇒ harmless whenever the caller passes arrays it allocated itself -/
+theorem structured_safe_sound_params (A0 : List Var) (b : List Stmt) (hb : safeB A0 b = true) (n0 : Nat) (σ σ' : St)
+    (hn : n0 ≤ σ.next) (hA : ∀ x, x ∈ A0 → ∀ i, i ∈ (get σ.env x).all → n0 ≤ i) (he : ExecL b σ σ') :
+    ∀ i, i < n0 → σ'.ver i = σ.ver i :=
+  (safeB_sound hb ⟨hn, hA⟩ he).ver
+
+-- a loop that keeps writing into its own accumulator is accepted; the same loop on an argument is not
+example : safeB [] [.op (.fresh V.res), .loop [.op (.view V.tmp V.res true), .op (.setItem V.tmp)],
+    .ite [.op (.ret V.res)] [.op (.asarray V.f V.field)]] = true := by decide
+example : safeB [] [.op (.asarray V.res V.field), .loop [.op (.view V.tmp V.res true), .op (.setItem V.tmp)]] = false := by
+  decide
+-- a variable that is owned on one branch only is not owned after the join
+example : safeB [] [.ite [.op (.fresh V.f)] [.op (.asarray V.f V.field)], .op (.setItem V.f)] = false := by decide
+-- …and such a program really has an execution that writes the caller's buffer
+example : ∃ σ σ' : St, ExecL [.ite [.op (.fresh V.f)] [.op (.asarray V.f V.field)], .op (.setItem V.f)] σ σ' ∧
+    σ'.ver 0 ≠ σ.ver 0 ∧ 0 < σ.next :=
+  ⟨{ next := 1, env := [(V.field, Obj.arr 0)], attrs := [], rets := [], written := [], ver := fun _ => 0 }, _,
+   .cons (.iteR (.cons (.op _ _) .nil)) (.cons (.op _ _) .nil), by decide, by decide⟩
+
 /-! ### every modelled entry point, every configuration -/
 
 theorem safe_applyMNT : ∀ a b, safe (pApplyMNT a b) = true := by decide
